@@ -29,6 +29,7 @@ mod c17_real;
 mod c16_world;
 mod c18;
 mod c19;
+mod c20;
 
 static HOOKS: rzmq::verif::sched::Hooks = rzmq::verif::sched::Hooks {
   point: mc_core::e2::hook_point,
@@ -98,6 +99,7 @@ fn main() {
         "C17" => c17::run(tier),
         "C18" => c18::run(tier),
         "C19" => c19::run(tier),
+        "C20" => c20::run(tier),
         _ => {
           eprintln!("no check registered for {}", prop);
           std::process::exit(2);
@@ -135,6 +137,7 @@ fn main() {
         "C17" => c17::replay(&sub, &v["witness"]),
         "C18" => c18::replay(&sub, &v["witness"]),
         "C19" => c19::replay(&sub, &v["witness"]),
+        "C20" => c20::replay(&sub, &v["witness"]),
         _ => Err(format!("no replay registered for {}", prop)),
       };
       match res {
